@@ -281,6 +281,7 @@ def run_property(pid, spec, tier, seed, workdir, t0, only, nodiff):
             totals["feas"] += q["feas_sat"] + q["feas_unsat"] + q["feas_unknown"]
             totals["assert_q"] += q["assert_sat"] + q["assert_unsat"] + q["assert_unknown"]
             totals["unknown"] += q["feas_unknown"] + q["assert_unknown"]
+            totals["portfolio"] = totals.get("portfolio", 0) + q.get("portfolio_rescued", 0)
             fns_pdfcpu.update(res["functions_pdfcpu"] or [])
             fns_other.update(res["functions_other"] or [])
             stubs.update(res["stubs"] or [])
@@ -398,7 +399,7 @@ def run_property(pid, spec, tier, seed, workdir, t0, only, nodiff):
             explanation=spec.get("explanation", ""),
             bounds=bounds_used,
             functions_encoded=dict(pdfcpu=sorted(fns_pdfcpu), other=sorted(fns_other)),
-            queries=dict(feasibility=totals["feas"], assertion=totals["assert_q"], unknown=totals["unknown"]),
+            queries=dict(feasibility=totals["feas"], assertion=totals["assert_q"], unknown=totals["unknown"], decided_by_portfolio_fallback=totals.get("portfolio", 0)),
             solver_time_s={k: round(v, 2) for k, v in solver_times.items()},
             stubs=sorted(stubs), harness_instances=instances, instructions_interpreted=totals["steps"],
             problems=problems[:30], unconfirmed_counterexamples=unconfirmed, vacuity_failures=vacuous,
